@@ -2,9 +2,10 @@
    ExtrOcamlBasic only: bool, option, unit, list, prod, sumbool, sumor map to OCaml's own
    types; Z, positive, N, nat and Flocq's binary_float stay the Coq datatypes. *)
 From Coq Require Import ZArith List Extraction ExtrOcamlBasic.
-Require Import SZV.Base.Bytes SZV.Base.BitPack.
+Require Import SZV.Base.Bytes SZV.Base.BitPack SZV.Base.CSem SZV.Gen.SrcFuns SZV.Model.Dims.
 Extraction Blacklist List String Int.
 Extraction "../ocaml/gen/szm.ml"
   to_be from_be to_signed to_unsigned fp_to_bytes bytes_to_fp size_to_bytes bytes_to_size
   array_to_bytes bytes_to_array
-  pack unpack packed_len read_all.
+  pack unpack packed_len read_all
+  fdim_report filtered wfb c_computeDataLength c_computeDimension.
